@@ -12,14 +12,15 @@ every cycle, every `period_cyc`, both `clk_stretch` settings):
 `sda_changes_under_scl_high_only_for_start_stop`, `busy_low_iff_accepting`, `stretch_holds_timer`,
 `read_samples_when_scl_high` (where and under which SCL condition the read shift register samples).
 
-PARTIAL: the byte-level statements ("the k-th clock of a write carries bit 7-k of data_i", "data_o
-is the eight bits sampled") are only proved as one-step facts about the shift registers
-(`write_msb_first_and_ack_partial`); the full statement would be
-  theorem write_msb_first_and_ack : for a write accepted with data_i = d, the value of sda_o during
-    the k-th SCL-high phase (k = 0..7) is bit 7-k of d, sda_o = 1 during the ninth, and ack_o after
-    the operation is the complement of sda_i sampled during the ninth SCL-high phase.
-which needs the invariant `w_shreg = d <<< bitno` carried over the four-state bit loop; it is
-covered by the co-simulation and the monitor (`write-bits`, `write-ack-value`, `read-data`) only.
+The byte-level write statement (`write_msb_first_and_ack`: SCL-high phase of data clock `bitno`
+carries bit `7 - bitno` of the latched octet, SDA released during the acknowledge clock, read
+acknowledge clock carries `~ack_i`) and the loop invariant `sda_released_for_target_bits` are in
+`LunaVerif/Lemmas/I2cWrite.lean` (audited with this module).
+
+PARTIAL: the byte-level READ statement ("data_o is the eight bits sampled, MSB first") is only
+proved as the one-step fact `read_samples_when_scl_high`; the whole-operation statement would need
+a ghost list of sampled bits with `r_shreg % 2^k = value of the k bits sampled so far`; it is covered
+by the co-simulation and the monitor (`read-data`) only.
 -/
 namespace LunaVerif.I2c
 
